@@ -473,9 +473,27 @@ func init() {
 	for _, n := range []string{"log.Printf", "log.Println", "log.Print", "(*log.Logger).Printf", "(*log.Logger).Println", "(*log.Logger).Print"} {
 		ext(n, nop)
 	}
-	ext("fmt.Sprintf", func(fr *frame, args []value) value { return opaque{"fmt.Sprintf"} })
-	ext("fmt.Sprint", func(fr *frame, args []value) value { return opaque{"fmt.Sprint"} })
-	ext("fmt.Sprintln", func(fr *frame, args []value) value { return opaque{"fmt.Sprintln"} })
+	ext("fmt.Sprintf", func(fr *frame, args []value) value {
+		// non-empty when the format has literal text outside its verbs
+		f, _ := args[0].(string)
+		lit := false
+		for k := 0; k < len(f); k++ {
+			if f[k] == '%' {
+				k++
+				for k < len(f) && (f[k] == '+' || f[k] == '-' || f[k] == '#' || f[k] == ' ' || f[k] == '.' || (f[k] >= '0' && f[k] <= '9')) {
+					k++
+				}
+				if k < len(f) && f[k] == '%' {
+					lit = true
+				}
+				continue
+			}
+			lit = true
+		}
+		return opaque{tag: "fmt.Sprintf", nonEmpty: lit}
+	})
+	ext("fmt.Sprint", func(fr *frame, args []value) value { return opaque{tag: "fmt.Sprint"} })
+	ext("fmt.Sprintln", func(fr *frame, args []value) value { return opaque{tag: "fmt.Sprintln", nonEmpty: true} })
 	ext("errors.New", func(fr *frame, args []value) value {
 		cell := value(structure{args[0]})
 		p := fr.i.prog.ImportedPackage("errors")
@@ -495,7 +513,6 @@ func init() {
 	})
 	ext("(time.Time).UnixNano", func(fr *frame, args []value) value { return args[0].(structure)[1] })
 	ext("(time.Time).UTC", func(fr *frame, args []value) value { return args[0] })
-	ext("(time.Time).Format", func(fr *frame, args []value) value { return opaque{"time.Format"} })
 	ext("(time.Time).IsZero", func(fr *frame, args []value) value {
 		return binop(token.EQL, types.Typ[types.Int64], args[0].(structure)[1], int64(0))
 	})
